@@ -123,3 +123,9 @@ func selfCheckKit[G algebra.PrimeGroupElement[G, S], S algebra.PrimeFieldElement
 	}
 	return nil
 }
+
+type (
+	k256Point  = k256.Point
+	k256Scalar = k256.Scalar
+	k256Base   = k256.BaseFieldElement
+)
